@@ -62,6 +62,7 @@ func runC10(w *World, r *Report, tier string) {
 	ruleNoClamp(w, r, "integrate.HorizontalZoomMinMax")
 	ruleElementwise(w, r, "shape.ConvertSpatialIdsToExtendedSpatialIds", 0)
 	ruleElementwise(w, r, "shape.ConvertExtendedSpatialIdsToSpatialIds", 0)
+	ruleNegF(w, r, nil)
 	guardRows(w, r, "C10")
 }
 
